@@ -6,6 +6,7 @@ import importlib
 import json
 import multiprocessing as mp
 import os
+import tempfile
 import sys
 import time
 import traceback
@@ -315,8 +316,13 @@ def finish(prop, results, not_run, opts, meta, t0, tier, seed):
         "wall_s": round(wall, 2),
         "violations": len(viol_new),
     }
-    os.makedirs(os.path.join(VERIF_ROOT, "evidence"), exist_ok=True)
-    with open(os.path.join(VERIF_ROOT, "evidence", f"{prop}.json"), "w") as f:
+    # evidence describes runs against /repo itself; runs against a scratch tree (seeded changes, mutations) and runs of a
+    # scenario subset (--only / --limit) write elsewhere so that they can never be mistaken for it
+    evdir = os.path.join(VERIF_ROOT, "evidence")
+    if os.path.realpath(REPO) != os.path.realpath("/repo") or opts.get("subset"):
+        evdir = os.path.join(tempfile.gettempdir(), "vf_evidence_scratch")
+    os.makedirs(evdir, exist_ok=True)
+    with open(os.path.join(evdir, f"{prop}.json"), "w") as f:
         json.dump(ev, f, indent=1, default=str)
     print(f"{prop} tier={tier}: scenarios={n_scen} paths={tot['paths']} obligations={tot['obligations']} "
           f"discharged={tot['discharged']} inconclusive={len(inconclusive)} violations={len(viol_new)} "
